@@ -143,3 +143,28 @@ ip_case!(compile_one_of_ip__v4_probe_v4_item, 6, true, true);
 ip_case!(compile_one_of_ip__v4_probe_v6_item, 6, true, false);
 ip_case!(compile_one_of_ip__v6_probe_v4_item, 18, false, true);
 ip_case!(compile_one_of_ip__v6_probe_v6_item, 18, false, false);
+
+/// `b in {}` on byte strings: an empty brace list is false for every b, and an absent
+/// b is false (the default handed to `compile_with`).  Membership in a NON-empty
+/// `BTreeSet<Box<[u8]>>` is not decided here: building one entry exceeds 22 GB under CBMC.
+#[kani::proof]
+#[kani::unwind(4)]
+#[kani::stub(crate::ast::index_expr::IndexExpr::compile_with, crate::ast::field_expr::verif_kani::common::compile_with__contract)]
+fn compile_one_of_bytes__empty_list_and_absent_are_false() {
+    static XB: [u8; 2] = [0x61, 0xff];
+    let xlen: usize = kani::any();
+    kani::assume(xlen <= 2);
+    if cfg!(test) {
+        replay_check(Type::Bytes, true, || ComparisonOpExpr::OneOf(RhsValues::Bytes(Vec::new())), LhsValue::Bytes(Bytes::Borrowed(&XB[..xlen])), false, false);
+        return;
+    }
+    let (scheme, _ctx) = setup(Type::Bytes, LhsValue::Bytes(Bytes::Borrowed(&XB[..xlen])));
+    let compiled = extracted::arm_one_of(field_lhs(&scheme, 0), &mut NoCompiler, kani::any(), RhsValues::Bytes(Vec::new()));
+    std::mem::forget(compiled);
+    unsafe {
+        assert!(REC_CALLS == 1 && REC_VEC_CALLS == 0);
+        assert!(REC_RESULT == Some(false), "empty list: false");
+        assert!(REC_DEFAULT == Some(false), "absent b: false");
+    }
+    std::mem::forget(scheme);
+}
